@@ -23,13 +23,21 @@ behind a proxy does: a parser that wants one byte more than the header blocks). 
 session, the PTR lookup and the queued envelope see is the header's (invalid (None, None) after a malformed
 header -- never the proxy's own or one taken from the bad header), the dialogue after the header arrives
 intact, LOCAL starts no session and writes nothing, nothing but SMTP-layer errors on trailing garbage escapes.
+
+Concurrency: 2..4 connections are served in separate greenlets by one mix-in instance, by two instances of one
+class (static + mixin()) or by different mix-in classes, over vf.yieldsock_c17_c18.YieldSocket (an empty read
+blocks the greenlet on a gevent Event, so other connections' handlers really run in the gap).  The feeder feeds
+the connections piece by piece in a chosen global order (every interleaving for two connections, seeded beyond).
+Every connection is judged by the single-connection oracle and must equal what the same bytes give alone.
 """
 import re
 import random
 import struct
 import ipaddress
 
+import gevent
 from vf.sock import ScriptSocket, WouldBlock, cut
+from vf.yieldsock_c17_c18 import YieldSocket, settle, interleavings
 from slimta.edge import EdgeServer
 import slimta.edge.smtp as _edge_smtp
 from slimta.edge.smtp import SmtpEdge, SmtpValidators
@@ -48,7 +56,9 @@ LEVEL_TEXT = ('Real ProxyProtocol/V1/V2 handlers run on a scripted socket whose 
               'auto-detecting one. Every evaluation is compared with a strict reference parser. A selection of the '
               'cases (all directed well-formed/LOCAL/open ones, 1 in 12 of the rest; 1 in 3 thorough) also runs '
               'through the real SmtpEdge behind each mix-in with an SMTP dialogue after the header (pipelined '
-              'and banner-first). Held = held on '
+              'and banner-first). Concurrency: every ordered pair of 13 streams (v1/v2 families, LOCAL, garbage, '
+              'truncated) with the first connection cut inside its 8-byte prefix x every feed interleaving, plus '
+              'seeded 2..4-connection cases, on shared / separate / mixed mix-in instances. Held = held on '
               'the evaluations reported; not a proof for all headers.')
 LEVEL_NOTE = ('Trusted: ScriptSocket, the reference parser in this file (written from the haproxy spec), the '
               'classification of spec-open inputs as unjudged.')
@@ -59,7 +69,9 @@ RULE = ('case = one byte stream (header [+ payload], EOF after it); it is run th
         'distinct stream that is either a well-formed header followed by non-empty payload and delivered in >= 2 '
         'reads, or a corrupted / truncated / malformed header. edge: selected cases x 3 mix-ins (static / mixin() '
         'alternating) x (pipelined whole, pipelined seeded cuts, and for well-formed/LOCAL headers banner-first '
-        'whole / seeded cuts / always-1) on the real SmtpEdge = evaluations')
+        'whole / seeded cuts / always-1) on the real SmtpEdge = evaluations. conc: 2..4 streams + cuts + '
+        'configuration (one instance / two instances / mixin() / mixed classes); each feed order (all '
+        'interleavings up to 40, else seeded) = one evaluation; distinct schedules are counted as conc-schedule')
 ASSUMPTIONS = ['ScriptSocket.recv_into never returns more than requested and returns 0 at end of stream (EOF)',
                'unknown_pp_source_address and invalid_pp_source_address are both (None, None) in the library, so '
                '"UNKNOWN accepted" and "rejected as invalid" are not distinguishable at the handler and are not '
@@ -68,6 +80,9 @@ ASSUMPTIONS = ['ScriptSocket.recv_into never returns more than requested and ret
                'UNSPEC transport or vice versa) are judged only on no-escape and the consumption bound; a unix '
                'path with an embedded NUL may be reported cut at the first NUL, with only the padding stripped, '
                'or in full',
+               'concurrency: YieldSocket blocks the reading greenlet on a gevent Event when nothing is ready (what a '
+               'gevent socket does); the feed order is the whole schedule, no timers; a harness that cannot settle '
+               'gives inconclusive',
                'edge level: slimta.edge.smtp.PtrLookup is replaced by a recording stand-in (no resolver threads); an '
                'exception raised by the SMTP layer on the garbage that follows a malformed header is not judged here; '
                'a v2 AF_UNIX source reaches the SMTP session as a bytes path (its client ip becomes address[0], an '
@@ -77,6 +92,7 @@ ASSUMPTIONS = ['ScriptSocket.recv_into never returns more than requested and ret
                'family/length whose declared block is present must be dropped']
 REQUIRED_HITS = ['handler-address-compared', 'consumption-compared', 'malformed-judged', 'local-drop-judged',
                  'autodetect-parser-compared', 'destination-compared',
+                 'conc-connection-judged', 'conc-prefix-interleaved',
                  'edge-address-compared', 'edge-smtp-dialogue-compared', 'edge-banner-first-judged', 'edge-local-judged', 'edge-bad-header-judged']
 SHARDS = {'quick': 8, 'thorough': 16}
 BUDGET = {'quick': 50, 'thorough': 800}
@@ -255,12 +271,13 @@ def _wrap(cls, name, tag):
     orig = cls.__dict__[name].__func__
 
     def wrapper(klass, sock, initial):
+        trace = getattr(sock, 'pp_trace', _TRACE)     # concurrent connections keep their own record
         try:
             r = orig(klass, sock, initial)
         except BaseException as e:
-            _TRACE.append((tag, 'raise', type(e).__name__))
+            trace.append((tag, 'raise', type(e).__name__))
             raise
-        _TRACE.append((tag, 'ret', r))
+        trace.append((tag, 'ret', r))
         return r
     wrapper._c18 = True
     setattr(cls, name, classmethod(wrapper))
@@ -586,6 +603,9 @@ EDGE_EVERY = {'quick': 12, 'thorough': 3}
 
 
 def gen_cases(tier, seed, shard, nshards):
+    for n, c in enumerate(gen_conc(tier, seed)):
+        if n % nshards == shard:
+            yield c
     for n, c in enumerate(gen_all(tier, seed)):
         if n % nshards == shard:
             # the real SmtpEdge behind the mix-in: every directed well-formed / LOCAL / spec-open case, a
@@ -817,6 +837,215 @@ def run_edge(case, R, found):
                 R.count('violating-evaluations')
 
 
+# --------------------------------------------------------------------------- concurrent connections
+
+class CProbe(EdgeServer):
+    """Wrapped edge of the concurrency stratum: one instance serves several connections, so what it is handed
+    is recorded on the connection's socket."""
+
+    def __init__(self):
+        super(CProbe, self).__init__(None, None, hostname='probe')
+
+    def handle(self, sock, address):
+        sock.calls.append((address, sock.consumed))
+
+
+class CProbeV1(ProxyProtocolV1, CProbe):
+    pass
+
+
+class CProbeV2(ProxyProtocolV2, CProbe):
+    pass
+
+
+class CProbeAuto(ProxyProtocol, CProbe):
+    pass
+
+
+CSTATIC = {'v1': CProbeV1, 'v2': CProbeV2, 'auto': CProbeAuto}
+
+
+def make_cprobe(mode, dynamic):
+    if dynamic:
+        p = CProbe()
+        MIXIN[mode].mixin(p)
+        return p
+    return CSTATIC[mode]()
+
+
+def conc_pool():
+    """Streams of the concurrency stratum: different versions / families / garbage, all with a payload."""
+    pl = b'EHLO x\r\nrest'
+    c = dict(corpus())
+    return [('v1-tcp4', c['v1-tcp4-short'] + pl), ('v1-tcp6', c['v1-tcp6'] + pl), ('v1-unknown', c['v1-unknown'] + pl),
+            ('v2-tcp4', c['v2-tcp4-tlv'] + pl), ('v2-tcp6', c['v2-tcp6'] + pl), ('v2-unix', c['v2-unix'] + pl),
+            ('v2-local', c['v2-local'] + pl), ('v2-unspec', c['v2-unspec'] + pl),
+            ('smtp-garbage', b'EHLO probe.example\r\nQUIT\r\n'), ('tls-garbage', b'\x16\x03\x01\x02\x00\x01\x00\x01\xfc\x03\x03' + b'\x5a' * 40),
+            ('v1-bad-port', v1line('TCP4', '1.2.3.4', '5.6.7.8', 1, b'65536') + pl),
+            ('v2-truncated', c['v2-tcp4'][:20]), ('v1-other-tcp4', v1line('TCP4', '9.8.7.6', '5.4.3.2', 4321, 25) + pl)]
+
+
+CONC_CONFIGS = ['one-instance/auto', 'one-instance/v1', 'one-instance/v2', 'two-instances/auto',
+                'one-instance-mixin/auto', 'mixed-classes']
+MIXED = ['auto', 'v1', 'v2', 'auto']
+
+
+def gen_conc(tier, seed):
+    rnd = random.Random('c18-conc-%d-%s' % (seed, tier))
+    pool = conc_pool()
+    # two connections, every ordered pair of streams, first cut of A inside the 8-byte prefix, B cut once
+    for ia, (na, sa) in enumerate(pool):
+        for ib, (nb, sb) in enumerate(pool):
+            for ka in ((1, 5, 7) if tier == 'quick' else range(1, 8)):
+                kb = rnd.choice([0, 0, 3, 6, 8, 12, 16])
+                cfg = CONC_CONFIGS[(ia + ib + ka) % len(CONC_CONFIGS)] if tier == 'quick' else None
+                for config in ([cfg] if cfg else CONC_CONFIGS):
+                    yield {'kind': 'conc', 'names': [na, nb], 'streams': [sa, sb],
+                           'cuts': [[ka, rnd.randrange(ka + 1, len(sa))], [kb] if 0 < kb < len(sb) else []],
+                           'config': config, 'sched': 'all', 'rs': rnd.randrange(1 << 30), 'tier': tier}
+    # 3..4 connections, seeded cuts and seeded feed orders
+    for _ in range(4000 if tier == 'thorough' else 500):
+        n = rnd.choice([2, 3, 3, 4])
+        picks = [rnd.choice(pool) for _ in range(n)]
+        cuts = []
+        for _, s in picks:
+            ks = {rnd.randrange(1, 8)} if rnd.random() < 0.7 else set()
+            for _ in range(rnd.randrange(0, 3)):
+                ks.add(rnd.randrange(1, len(s)))
+            cuts.append(sorted(k for k in ks if 0 < k < len(s)))
+        yield {'kind': 'conc', 'names': [p[0] for p in picks], 'streams': [p[1] for p in picks], 'cuts': cuts,
+               'config': rnd.choice(CONC_CONFIGS), 'sched': 'seeded', 'rs': rnd.randrange(1 << 30), 'tier': tier}
+
+
+def conc_modes(config, n):
+    if config == 'mixed-classes':
+        return MIXED[:n]
+    return [config.split('/')[1]] * n
+
+
+def conc_probes(config, modes):
+    if config.startswith('one-instance-mixin'):
+        p = make_cprobe(modes[0], True)
+        return [p] * len(modes)
+    if config.startswith('one-instance'):
+        p = make_cprobe(modes[0], False)
+        return [p] * len(modes)
+    if config.startswith('two-instances'):
+        a, b = make_cprobe(modes[0], False), make_cprobe(modes[0], True)
+        return [(a, b)[i % 2] for i in range(len(modes))]
+    return [make_cprobe(m, i % 2 == 1) for i, m in enumerate(modes)]
+
+
+def _serve(probe, sock):
+    try:
+        probe.handle(sock, sock.peer)
+    except Exception as e:
+        sock.exc = e
+
+
+def run_schedule(streams, cuts, modes, config, sched):
+    """One evaluation: all connections are open (each handler blocked in its first read), then pieces are fed in
+    the order `sched` (connection indexes; the last occurrence of an index is that connection's EOF).
+    Returns (sockets, saw_prefix_interleaving) or None when the harness could not settle."""
+    n = len(streams)
+    pieces = [cut(s, c) for s, c in zip(streams, cuts)]
+    socks = [YieldSocket(peer=('192.0.2.%d' % (10 + i), 1000 + i)) for i in range(n)]
+    probes = conc_probes(config, modes)
+    glets = [gevent.spawn(_serve, probes[i], socks[i]) for i in range(n)]
+    ok = all(settle(socks[i], glets[i]) for i in range(n))
+    pos = [0] * n
+    inter = False
+    for i in sched:
+        if not ok:
+            break
+        # another connection is parked in the middle of its 8-byte prefix while this one moves
+        if any(j != i and socks[j].waiting and 0 < socks[j].consumed < 8 for j in range(n)):
+            inter = True
+        if pos[i] < len(pieces[i]):
+            socks[i].feed(pieces[i][pos[i]])
+        else:
+            socks[i].end()
+        pos[i] += 1
+        ok = settle(socks[i], glets[i])
+    if ok:
+        gevent.joinall(glets, timeout=5)
+        ok = all(g.dead for g in glets)
+    if not ok:
+        gevent.killall(glets, block=False)
+        return None
+    return socks, inter
+
+
+def conc_clause(mech):
+    """Oracle clause of a single-connection mechanism without family / reason (they stay in the witness): one
+    cross-connection root cause shows on every family."""
+    parts = mech.split('/')
+    if parts[0] == 'wellformed':
+        return parts[-1]
+    if parts[0] == 'local':
+        return 'local-' + parts[1]
+    if parts[0] == 'exception-escapes':
+        return 'exception-escapes-' + parts[2]
+    return parts[0]
+
+
+def run_conc(case, R):
+    streams, cuts, config = case['streams'], case['cuts'], case['config']
+    n = len(streams)
+    modes = conc_modes(config, n)
+    rnd = random.Random(case['rs'])
+    counts = [len(cut(s, c)) + 1 for s, c in zip(streams, cuts)]
+    if case['sched'] == 'all':
+        scheds = list(interleavings(counts))
+        if len(scheds) > 40:
+            scheds = rnd.sample(scheds, 40)
+    else:
+        scheds = []
+        for _ in range(6 if case.get('tier') == 'thorough' else 3):
+            s = [i for i, c in enumerate(counts) for _ in range(c)]
+            rnd.shuffle(s)
+            scheds.append(s)
+    refs = [reference(m, s) for m, s in zip(modes, streams)]
+    # what each connection gives alone (same bytes, same pieces): a disagreement that also shows alone is not
+    # a concurrency effect and keeps the single-connection mechanism
+    solo = []
+    for m, s, c, ref in zip(modes, streams, cuts, refs):
+        ss, calls, trace, exc = run_one(m, s, c, dynamic=False)
+        solo.append((set(x[0] for x in judge(m, ref, ss, calls, trace, exc)), calls, ss.consumed))
+    found = {}
+    for sched in scheds:
+        R.eval()
+        res = run_schedule(streams, cuts, modes, config, sched)
+        if res is None:
+            R.inconclusive('concurrency harness: a connection neither blocked in a read nor finished')
+            continue
+        socks, inter = res
+        R.observe('conc-schedule', (config, tuple(case['names']), tuple(map(tuple, cuts)), tuple(sched)))
+        R.observe('conc-shape', (config, n, tuple(r['kind'] for r in refs), inter))
+        if inter:
+            R.hit('conc-prefix-interleaved')
+        for i, sock in enumerate(socks):
+            R.hit('conc-connection-judged')
+            probs = judge(modes[i], refs[i], sock, sock.calls, sock.pp_trace, sock.exc)
+            alone = (solo[i][1], solo[i][2])
+            if not probs and sock.exc is None and (sock.calls, sock.consumed) != alone:
+                probs = [('differs-from-the-same-connection-alone/%s' % modes[i],
+                          'handler calls / consumption %r, alone %r' % ((sock.calls, sock.consumed), alone))]
+            for mech, what in probs:
+                if mech not in solo[i][0]:
+                    mech = 'concurrent/%s/%s' % (modes[i], conc_clause(mech))
+                if mech not in found:
+                    found[mech] = ['%s [%s handler, connection %d of %d, %s]' % (what, modes[i], i, n, config),
+                                   {'config': config, 'modes': modes, 'names': case['names'], 'connection': i,
+                                    'streams': [s[:120] for s in streams], 'cuts': cuts, 'feed_order': sched,
+                                    'reference': refs[i], 'handler_calls': sock.calls, 'consumed': sock.consumed,
+                                    'left_unread': sock.unread()[:80], 'alone': alone}]
+                R.count('violating-evaluations')
+    R.nontrivial(('conc', tuple(case['names']), tuple(map(tuple, cuts)), config))
+    for mech, (what, wit) in sorted(found.items()):
+        R.violation(mech, what, wit)
+
+
 # --------------------------------------------------------------------------- execution + oracle
 
 def patterns(stream, hlen, rnd, tier, wellformed):
@@ -918,6 +1147,8 @@ def judge(mode, ref, ss, calls, trace, exc):
 
 
 def run_case(case, R):
+    if case['kind'] == 'conc':
+        return run_conc(case, R)
     hdr, payload = case['hdr'], case['payload']
     stream = hdr + payload
     rnd = random.Random(case['rs'])
